@@ -168,6 +168,65 @@ class GraphGen:
         return self.key()
 
 
+def has_single_phase_cycle(root):
+    """Is there a cycle that runs only through single-phase nodes (python/tuple)?  Decided on the finished model with
+    aliases resolved: any path counts, not only the one along which an alias was generated (a tuple may be reached a
+    second time through a later alias while it is still under construction)."""
+    table = {}
+
+    def collect(n):
+        if isinstance(n, A):
+            return
+        if n.anchor:
+            table[n.anchor] = n
+        if isinstance(n, Q):
+            for i in n.items:
+                collect(i)
+        elif isinstance(n, M):
+            for k, v in n.pairs:
+                collect(k)
+                collect(v)
+    collect(root)
+
+    def is_tuple(n):
+        return isinstance(n, Q) and n.tag == PY + 'tuple'
+
+    def tuple_children(n):
+        out = []
+        for c in n.items:
+            if isinstance(c, A):
+                c = table.get(c.name)
+            if c is not None and is_tuple(c):
+                out.append(c)
+        return out
+    tuples = []
+
+    def walk(n):
+        if isinstance(n, A):
+            return
+        if is_tuple(n):
+            tuples.append(n)
+        if isinstance(n, Q):
+            for i in n.items:
+                walk(i)
+        elif isinstance(n, M):
+            for k, v in n.pairs:
+                walk(k)
+                walk(v)
+    walk(root)
+    color = {}
+
+    def dfs(n):
+        color[id(n)] = 1
+        for c in tuple_children(n):
+            st = color.get(id(c), 0)
+            if st == 1 or (st == 0 and dfs(c)):
+                return True
+        color[id(n)] = 2
+        return False
+    return any(color.get(id(t), 0) == 0 and dfs(t) for t in tuples)
+
+
 def fix_model(n):
     """gdoc's renderer wants block collections inside flow ones to be flow too."""
     def rec(x, inflow):
@@ -293,7 +352,9 @@ def identity_case(r, ctx, i):
         if isinstance(root, A):
             root = g.scalar()
         docs.append(Doc(fix_model(root), None, r.random() < 0.3))
-        expects.append(g.expect)
+        expects.append('ConstructorError' if has_single_phase_cycle(root) else 'ok')
+        if expects[-1] != g.expect:
+            g.classes.add('cycle_through_second_path')
         classes |= g.classes
         nal += g.nalias
         names_used.append(g.n)
